@@ -383,13 +383,14 @@ func (c *Client) Solicit(ctx context.Context, modifiers ...dhcpv6.Modifier) (*dh
 	return msg, nil
 }
 
-// Request requests an IP Assignment from peer given an advertise message.
+// Request requests an IP Assignment from peer given an advertise message and
+// returns the first reply received.
 func (c *Client) Request(ctx context.Context, advertise *dhcpv6.Message, modifiers ...dhcpv6.Modifier) (*dhcpv6.Message, error) {
 	request, err := dhcpv6.NewRequestFromAdvertise(advertise, modifiers...)
 	if err != nil {
 		return nil, err
 	}
-	return c.SendAndRead(ctx, c.serverAddr, request, nil)
+	return c.SendAndRead(ctx, c.serverAddr, request, IsMessageType(dhcpv6.MessageTypeReply))
 }
 
 // send sends p to destination and returns a response channel.
